@@ -185,6 +185,14 @@ class Flattener:
                     pp = self.expr(e.rhs.e.args[0], pre)
                     nn = self.expr(e.rhs.e.args[1], pre)
                     return pre + [f".realloc {self.reg(e.lhs.n)} {pp} {nn}"]
+                if self.is_field(e.lhs) and isinstance(e.rhs, Cast) and getattr(e.rhs, "ptr", 0) == 1 \
+                        and isinstance(e.rhs.e, Call) and e.rhs.e.f == "realloc" and len(e.rhs.e.args) == 2:
+                    # memory->data = (U8*)realloc(…): the result goes through a temporary pointer register
+                    pp = self.expr(e.rhs.e.args[0], pre)
+                    nn = self.expr(e.rhs.e.args[1], pre)
+                    tr = self.declare(f"%realloc{self.ntemps}", ("u8", 1))
+                    self.ntemps += 1
+                    return pre + [f".realloc {tr} {pp} {nn}", f".write .{self.field(e.lhs)} (.reg {tr})"]
                 if isinstance(e.lhs, Var):
                     t = self.expr(e.rhs, pre)
                     return pre + [f".set {self.reg(e.lhs.n)} {t}"]
